@@ -41,9 +41,26 @@ pub trait Kind: Send + Sync + 'static {
     fn brief(i: &Self::Item) -> String;
 }
 
+/// payload size that stands for "200 KiB of compressible text" (everything else is incompressible)
+const COMPRESSIBLE: usize = 204_801;
+
 fn body(i: usize, size: usize) -> Vec<u8> {
+    if size == COMPRESSIBLE {
+        let line = format!("item {i:04} - the quick brown fox jumps over the lazy dog; pack my box with five dozen liquor jugs\n");
+        return line.as_bytes().iter().cycle().take(size).copied().collect();
+    }
     // every item distinct even when size == 0 is requested: the index is part of the value where the type allows
-    (0..size).map(|k| (k as u32).wrapping_mul(2654435761).to_le_bytes()[2] ^ (i as u8)).collect()
+    // incompressible: xorshift64* seeded by the index (a multiplicative counter would be
+    // quasi-periodic and compress 70:1, which made "oversized" batches fit a frame after all)
+    let mut x: u64 = 0x9E37_79B9_7F4A_7C15 ^ ((i as u64 + 1).wrapping_mul(0xD1B5_4A32_D192_ED03));
+    (0..size)
+        .map(|_| {
+            x ^= x >> 12;
+            x ^= x << 25;
+            x ^= x >> 27;
+            (x.wrapping_mul(0x2545_F491_4F6C_DD1D) >> 56) as u8
+        })
+        .collect()
 }
 
 pub struct KString;
@@ -364,6 +381,15 @@ fn cells(tier: &str) -> Vec<Value> {
     for (k, (b, n)) in [(Some((5u32, hour)), 6usize), (Some((4, hour)), 9), (Some((5, 0)), 6)].into_iter().enumerate() {
         push(codecs[k % 3], if k == 1 { "lz4" } else { "none" }, b, n, 300_000, &mut v);
     }
+    // compressible items whose batch exceeds 1 MiB before compression and fits a frame after it
+    // (the frame limit is on the compressed bytes): 8 x 200 KiB of text, also flushed by finish()
+    {
+        let comps_c: Vec<&str> = if tier == "thorough" { vec!["gzip", "zlib", "zstd", "lz4", "brotli"] } else { vec!["zstd", "gzip"] };
+        for (k, comp) in comps_c.into_iter().enumerate() {
+            push(codecs[k % 3], comp, Some((8, hour)), 8, COMPRESSIBLE, &mut v);
+            push(codecs[(k + 1) % 3], comp, Some((100, hour)), 7, COMPRESSIBLE, &mut v);
+        }
+    }
     // duplicate() taken while 1..size-1 items of a batch are pending
     for b in [Some((5u32, hour)), Some((3, hour)), Some((2, 0)), None] {
         let s = b.map(|x| x.0 as usize).unwrap_or(2);
@@ -453,7 +479,7 @@ pub async fn run(tier: &str, replaying: bool) -> ! {
     finish(
         rep,
         outs,
-        "every cell of codec {String, Bytes, Bincode struct} x compression {none, gzip, zlib, zstd, lz4, brotli} x batching {off; size 1,2,3,5 x interval 1h (never elapses) / 0 (always elapsed)} x message count 0..=2*size+1 x payload {0, 24 B, 100 KB, mixed (one 100 KB item between 24 B items)} in thorough; quick: every batching config x every message count with codec/compression rotating over all 18 pairs, plus mixed payload sizes under every batching config, plus every pair x {unbatched, size 2} x three payload sizes. Plus bulk cells (3000 items of 2 KiB pushed with send_all while the subscriber stays idle for 1.5 s, so the transport's back-pressure reaches the publisher; unbatched and batched) and duplicate cells (Publisher::duplicate() taken while 1..size items of a batch are pending; the duplicate sends two items and finishes before the original continues; every item of either exactly once, each publisher's in order). Plus drop-after-finish cells (500 items of 8 KiB through send_all on a connection of the publisher's own, which is dropped the moment finish() has returned) refused-item cells (unbatched: an item over the frame limit is refused between valid items, which must all arrive) and oversized-batch cells (valid 300 KB items whose batch as a whole exceeds the frame limit). Each cell: real Subscriber (attached via a warm-up barrier), real Publisher sends n items then finish(); oracle: the subscriber yields exactly the sent items, equal, in order, once, nothing else. non-trivial = at least one message",
+        "every cell of codec {String, Bytes, Bincode struct} x compression {none, gzip, zlib, zstd, lz4, brotli} x batching {off; size 1,2,3,5 x interval 1h (never elapses) / 0 (always elapsed)} x message count 0..=2*size+1 x payload {0, 24 B, 100 KB, mixed (one 100 KB item between 24 B items)} in thorough; quick: every batching config x every message count with codec/compression rotating over all 18 pairs, plus mixed payload sizes under every batching config, plus every pair x {unbatched, size 2} x three payload sizes. Plus bulk cells (3000 items of 2 KiB pushed with send_all while the subscriber stays idle for 1.5 s, so the transport's back-pressure reaches the publisher; unbatched and batched) and duplicate cells (Publisher::duplicate() taken while 1..size items of a batch are pending; the duplicate sends two items and finishes before the original continues; every item of either exactly once, each publisher's in order). Plus drop-after-finish cells (500 items of 8 KiB through send_all on a connection of the publisher's own, which is dropped the moment finish() has returned) refused-item cells (unbatched: an item over the frame limit is refused between valid items, which must all arrive) oversized-batch cells (valid 300 KB items whose batch as a whole exceeds the frame limit) and large compressible batches (8 x 200 KiB of text: over 1 MiB before compression, within a frame after it). Each cell: real Subscriber (attached via a warm-up barrier), real Publisher sends n items then finish(); oracle: the subscriber yields exactly the sent items, equal, in order, once, nothing else. non-trivial = at least one message",
         "each cell runs against one shared in-process server on a unique topic with its own client connection",
         json!({}),
         replaying,
